@@ -495,15 +495,16 @@ class Exec:
 # ---------------------------------------------------------------------------
 # observers
 # ---------------------------------------------------------------------------
-def _norm_vals(v):
-    """numpy / list of floats -> list with NaN as None; None stays None."""
+def _norm_vals(v, ndv=False):
+    """numpy / list of floats -> list with NaN (and, for raw file content, the format's
+    no-data code) as None; None stays None."""
     if v is None:
         return None
     try:
         arr = np.asarray(v)
         if arr.dtype.kind in "fiu":
             arr = arr.astype(float).ravel()
-            return [None if x != x else float(x) for x in arr.tolist()]
+            return [None if (x != x or (ndv and x == NDV32)) else float(x) for x in arr.tolist()]
         return [x.decode() if isinstance(x, bytes) else x for x in arr.ravel().tolist()]
     except Exception:  # pylint: disable=broad-except
         return repr(v)
@@ -656,7 +657,12 @@ def table_check(dg, holes_model, obs_name):
         return out, {}
     stats = {}
     for g in sorted(set(tables) - set(names)):
-        out.append((C, f"{obs_name}:table-for-absent-group", {"group": str(g)}))
+        try:
+            n_rows = len(tables[g].depth_table)
+        except Exception:  # pylint: disable=broad-except
+            n_rows = 0
+        if n_rows:
+            out.append((C, f"{obs_name}:table-lists-rows-of-a-group-no-hole-has", {"group": str(g), "rows": n_rows}))
     for g in names:
         owners = [h for h in holes_model if g in holes_model[h]["groups"]]
         if g not in tables:
@@ -665,7 +671,8 @@ def table_check(dg, holes_model, obs_name):
         try:
             tab = tables[g].depth_table
         except Exception as err:  # pylint: disable=broad-except
-            out.append((C, f"{obs_name}:depth_table-raises", {"group": g, "error": repr(err)[:300]}))
+            empty = all(holes_model[h]["groups"][g]["n"] == 0 for h in owners)
+            out.append((C, f"{obs_name}:depth_table-raises:{type(err).__name__}" + (":no-rows-at-all" if empty else ""), {"group": g, "error": repr(err)[:300]}))
             continue
         cols = list(tab.dtype.names or [])
         if "Drillhole" not in cols:
@@ -722,8 +729,10 @@ def _table_blocks(tab, blocks, g, owners, holes_model, obs_name, cols):
             if not _same_vals(exp, got):
                 if role == "absent" and col in hole["data"]:
                     cl = "data-of-another-group-of-the-hole"
+                elif role == "absent":
+                    cl = "values-under-a-name-the-hole-does-not-have"
                 else:
-                    cl = classify(got, exp, src, col, "prop" if role == "absent" else role)
+                    cl = classify(got, exp, src, col, role)
                 out.append((C, f"{obs_name}:values:{role}:{cl}", {"group": g, "hole": hole["name"], "column": col, "expected": exp, "got": got}))
     for h in owners:
         if h not in seen and holes_model[h]["groups"][g]["n"] > 0:
@@ -743,16 +752,45 @@ def _rec_kind(r):
 
 
 def raw_group(b, dg_uid):
-    t = rawh5.tree(b)
-    node = t["nodes"].get(("Groups", rawh5.norm_uid(str(dg_uid))))
-    if node is not None:
-        node["concat_names"] = []
-        with rawh5.open_bytes(b) as f:
-            proj = f[list(f)[0]]
-            for key, grp in proj["Groups"].items():
-                if rawh5.norm_uid(key) == rawh5.norm_uid(str(dg_uid)) and "Concatenated Data" in grp:
-                    node["concat_names"] = sorted(grp["Concatenated Data"])
-    return node
+    """The stored node of one drillhole group, read with plain h5py (rawh5 helpers): the
+    'Concatenated Data' block, the node's own datasets and the names present."""
+    if b is None:
+        return None
+    want = rawh5.norm_uid(str(dg_uid))
+    with rawh5.open_bytes(b) as f:
+        proj = f[list(f)[0]]
+        for key, grp in proj["Groups"].items():
+            if rawh5.norm_uid(key) != want:
+                continue
+            node = {"dsets": rawh5._dsets(grp), "concat": None, "concat_names": []}  # pylint: disable=protected-access
+            if "Concatenated Data" in grp:
+                node["concat"] = rawh5._concat(grp["Concatenated Data"])  # pylint: disable=protected-access
+                node["concat_names"] = sorted(grp["Concatenated Data"])
+            return node
+    return None
+
+
+NDV32 = float(np.float32(1.175494351e-38))  # the format's no-data code for float arrays
+
+
+def node_digests(node):
+    """{('record', id): hash, ('slice', label, object, data): hash of the slice CONTENT} - the
+    same decomposition as rawh5.digests, computed from an already parsed node."""
+    d = {}
+    if node is None or node["concat"] is None:
+        return d
+    c = node["concat"]
+    for rec in c["attributes"] or []:
+        rid = rawh5.norm_uid(rec.get("ID", "?"))
+        d[("record", rid)] = rawh5._h(rec)  # pylint: disable=protected-access
+    for lab, rows in c["index"].items():
+        arr = c["data"].get(lab)
+        if arr is None:
+            arr = c["other"].get(lab)
+        for (start, size, oid, did) in rows:
+            sl = None if arr is None else rawh5._arr(arr[start : start + size])  # pylint: disable=protected-access
+            d[("slice", lab, oid, did)] = rawh5._h(sl)  # pylint: disable=protected-access
+    return d
 
 
 def raw_check(node, before_ids=None):
@@ -869,7 +907,7 @@ def raw_check(node, before_ids=None):
                     continue
                 if str(datas[du].get("Name", "")).replace("⁄", "/") != lab_name:
                     out.append((T, "row-under-a-label-that-is-not-the-data-name", {"label": lab, "record-name": datas[du].get("Name")}))
-                rows_of.setdefault(du, []).append((lab_name, _norm_vals(sl)))
+                rows_of.setdefault(du, []).append((lab_name, _norm_vals(sl, ndv=True)))
             else:
                 if du != ZERO:
                     out.append((T, f"object-level-row-with-data-id:{cls}", {"label": lab, "data": du}))
@@ -969,18 +1007,16 @@ def compare_raw(exp, view):
 
 
 # -- before / after differential -------------------------------------------------
-def isolation_check(op, before_b, after_b, dg_uid, target_uid, ids_before, ids_after, narrow):
+def isolation_check(op, node0, node1, target_uid, ids_before, ids_after, narrow):
     """'operations on one hole or one data set never alter another's values' (and records):
     per-record and per-slice digests of everything outside the operation's footprint are equal
     before and after.  narrow = set of uids the operation may touch inside the target hole
     (None: the whole hole)."""
     out = []
     C = "others-untouched"
-    if before_b is None or after_b is None:
+    if node0 is None or node1 is None:
         return out
-    d0 = {k: v for k, v in rawh5.digests(before_b).items() if k[0] in ("concat-record", "concat-slice") and k[1] == rawh5.norm_uid(str(dg_uid))}
-    d1 = {k: v for k, v in rawh5.digests(after_b).items() if k[0] in ("concat-record", "concat-slice") and k[1] == rawh5.norm_uid(str(dg_uid))}
-    diff = rawh5.diff_digests(d0, d1)
+    diff = rawh5.diff_digests({k: {"h": v} for k, v in node_digests(node0).items()}, {k: {"h": v} for k, v in node_digests(node1).items()})
 
     def owner(uid):
         k = ids_after.get(uid) or ids_before.get(uid)
@@ -988,31 +1024,27 @@ def isolation_check(op, before_b, after_b, dg_uid, target_uid, ids_before, ids_a
 
     tu = rawh5.norm_uid(str(target_uid)) if target_uid is not None else None
     for key, comp in sorted(diff.items(), key=repr):
-        if key[0] == "concat-record":
-            uid = key[2]
+        if key[0] == "record":
+            uid = key[1]
             own = owner(uid)
             touched = [uid]
             what = "record"
         else:
-            _, _, lab, ou, du = key
+            _, _lab, ou, du = key
             own = ou
             touched = [du] if du != ZERO else [ou]
-            uid = du if du != ZERO else ou
             what = "slice"
         rel = None
         if tu is None or own != tu:
-            if own is None and tu is not None:
-                rel = "unowned-entry"
-            else:
-                rel = "other-hole"
+            rel = "entry-of-no-hole" if (own is None and tu is not None) else "other-hole"
         elif narrow is not None and not any(t in narrow for t in touched):
             rel = "same-hole-other-data"
         if rel is None:
             continue
         how = "created" if "created" in comp else ("deleted" if "deleted" in comp else "changed")
-        if rel == "unowned-entry" and how == "deleted":
+        if rel == "entry-of-no-hole" and how == "deleted":
             continue  # clean-up of a leftover that belonged to nobody
-        out.append((C, f"{op[0]}:{what}-{how}:{rel}", {"op": op, "entry": list(key), "components": sorted(comp)}))
+        out.append((C, f"{op[0]}:{what}-{how}:{rel}", {"op": op, "entry": list(key)}))
     return out
 
 
@@ -1053,15 +1085,17 @@ for _k in list(SCENES):
 # ---------------------------------------------------------------------------
 # running one history
 # ---------------------------------------------------------------------------
-def _image_in_fork(ex):
-    """Bytes of the file as a close at this point would leave it, without disturbing ex."""
+def _in_fork(fn):
+    """Run fn() in a forked copy of this process and return its (picklable) result, so that
+    whatever fn does (closing the file, loading lazy fields) leaves this process untouched.
+    Returns ("ok", result) or ("err", traceback text)."""
     rfd, wfd = os.pipe()
     pid = os.fork()
     if pid == 0:
         code = 0
         try:
             os.close(rfd)
-            out = pickle.dumps(("ok", ex.close_all()))
+            out = pickle.dumps(("ok", fn()))
         except BaseException:  # pylint: disable=broad-except
             out = pickle.dumps(("err", traceback.format_exc()))
             code = 1
@@ -1074,8 +1108,7 @@ def _image_in_fork(ex):
     with os.fdopen(rfd, "rb") as fh:
         data = fh.read()
     os.waitpid(pid, 0)
-    status, payload = pickle.loads(data)
-    return payload if status == "ok" else None
+    return pickle.loads(data)
 
 
 def template(history):
@@ -1088,6 +1121,9 @@ def template(history):
     return ex
 
 
+HOLE_OPS = ("add", "update", "resurvey", "rename_hole", "rename_data", "rm_data", "rm_group", "rm_hole")
+
+
 def run_history(ex, history, alpha):
     """Run the ops of `history` on `ex` (already holding the scene), observe and judge."""
     ops = history["ops"]
@@ -1095,16 +1131,27 @@ def run_history(ex, history, alpha):
     before = None
     target_uid = None
     if ops:
-        before = _image_in_fork(ex)
+        st, before = _in_fork(ex.close_all)  # what a close at this point would leave on file
+        if st != "ok":
+            before = None
         last = ops[-1]
-        if last[0] in ("add", "update", "resurvey", "rename_hole", "rename_data", "rm_data", "rm_group", "rm_hole") and last[1] in ex.hole_uid:
+        if last[0] in HOLE_OPS and last[1] in ex.hole_uid:
             target_uid = ex.hole_uid[last[1]]
     pre_model = _copy.deepcopy(ex.model)
     ex.run(ops[-1:])
     if ops and ops[-1][0] in ("add_hole", "copy_hole"):
-        target_uid = ex.hole_uid.get(ops[-1][-2] if ops[-1][0] == "add_hole" else ops[-1][2])
+        target_uid = ex.hole_uid.get(ops[-1][1] if ops[-1][0] == "add_hole" else ops[-1][2])
     caches = ex.cache_shape()
     return observe_and_judge(ex, history, alpha, before, target_uid, pre_model, caches)
+
+
+def _view_broken(viol, obs_name):
+    """True when the per-hole reading of this observer already fails on data / values: the
+    group-wide table is a view over the same data and is then not judged separately."""
+    for c, w, _ in viol:
+        if c == "hole-reads-back" and w.startswith(obs_name + ":") and "hole-listed-but-not-live" not in w and "data-children:extra" not in w:
+            return True
+    return False
 
 
 def _uids_into_model(holes, hole_uid):
@@ -1112,16 +1159,18 @@ def _uids_into_model(holes, hole_uid):
         hole["_uid"] = rawh5.norm_uid(str(hole_uid[h])) if h in hole_uid else None
 
 
-def observe_and_judge(ex, history, alpha, before, target_uid, pre_model, caches):
-    ops = history["ops"]
-    m = ex.model
-    viol = []
-    exp = expected_view(m["holes"])
-    removed_names = {hole["name"] for hole in pre_model["holes"].values()} - set(exp)
-    holes_model = _copy.deepcopy(m["holes"])
-    _uids_into_model(holes_model, ex.hole_uid)
+def _copy_dg(ex):
+    try:
+        cws = ex.ws if ex.copy_where == "same" else ex.ws2
+        return cws.get_entity(ex.copy_uid)[0]
+    except Exception:  # pylint: disable=broad-except
+        return None
 
-    # 1. live
+
+def _live_observation(ex, exp, removed_names, holes_model, copy_exp):
+    """Everything read from the live objects (runs in a fork: public getters load lazy
+    fields and must not influence what the close afterwards writes)."""
+    viol = []
     try:
         dg = ex.dg()
     except Exception:  # pylint: disable=broad-except
@@ -1129,47 +1178,75 @@ def observe_and_judge(ex, history, alpha, before, target_uid, pre_model, caches)
     live, v = api_view(dg, "live")
     viol += v
     viol += compare_view(exp, live, "live", removed_names)
-    tv, tstats = table_check(dg, holes_model, "live")
-    viol += tv
-    copy_live = None
+    tstats = {}
+    if not _view_broken(viol, "live"):
+        tv, tstats = table_check(dg, holes_model, "live")
+        viol += tv
+    cviol = []
     if ex.copy_uid is not None:
-        try:
-            cws = ex.ws if ex.copy_where == "same" else ex.ws2
-            cdg = cws.get_entity(ex.copy_uid)[0]
-        except Exception:  # pylint: disable=broad-except
-            cdg = None
-        copy_live, v = api_view(cdg, "copy-live")
-        viol += v
-        viol += compare_view(expected_view(m["copies"][0]["holes"]), copy_live, "copy-live")
+        cdg = _copy_dg(ex)
+        cv, v = api_view(cdg, "copy-live")
+        cviol += v
+        cviol += compare_view(copy_exp, cv, "copy-live")
+    return viol, cviol, tstats
 
-    # 2. close, raw
+
+def observe_and_judge(ex, history, alpha, before, target_uid, pre_model, caches):
+    ops = history["ops"]
+    last = ops[-1] if ops else ["-"]
+    m = ex.model
+    viol = []
+    cviol = []  # about the copy of the group
+    exp = expected_view(m["holes"])
+    copy_exp = expected_view(m["copies"][0]["holes"]) if m["copies"] else None
+    removed_names = {hole["name"] for hole in pre_model["holes"].values()} - set(exp)
+    holes_model = _copy.deepcopy(m["holes"])
+    _uids_into_model(holes_model, ex.hole_uid)
+    tstats = {}
+
+    # 1. live, through public getters (in a fork)
+    st, res = _in_fork(lambda: _live_observation(ex, exp, removed_names, holes_model, copy_exp))
+    if st != "ok":
+        raise core.HarnessError(f"live observation crashed on {history!r}:\n{res}")
+    v, cv, tstats = res
+    viol += v
+    cviol += cv
+
+    # 2. close, read the file with plain h5py
     try:
         b1, b2 = ex.close_all()
     except Exception as err:  # pylint: disable=broad-except
-        viol.append(("file-content", "close-raises", {"error": repr(err)}))
-        return _result(ex, history, alpha, viol, None, caches, None, tstats)
+        viol.append(("file-content", f"close-raises:{type(err).__name__}", {"error": repr(err), "trace": traceback.format_exc()[-500:]}))
+        return _result(ex, history, alpha, viol, None, caches, None, tstats, False)
+    node0 = raw_group(before[0], ex.dg_uid) if before is not None else None
     ids_before = {}
-    if before is not None and before[0] is not None:
+    if node0 is not None:
         try:
-            _, _, ids_before = raw_check(raw_group(before[0], ex.dg_uid))
+            _, _, ids_before = raw_check(node0)
         except Exception:  # pylint: disable=broad-except
             ids_before = {}
     node = raw_group(b1, ex.dg_uid)
     rv, rview, ids_after = raw_check(node, ids_before)
     viol += rv
-    viol += compare_raw(exp, rview)
+    if not rv:  # content is read through the structure: judged only when the structure holds
+        viol += compare_raw(exp, rview)
+    cnode = None
     if ex.copy_uid is not None:
-        cb = b1 if ex.copy_where == "same" else b2
-        cnode = raw_group(cb, ex.copy_uid)
+        cnode = raw_group(b1 if ex.copy_where == "same" else b2, ex.copy_uid)
         crv, crview, _ = raw_check(cnode, {})
-        viol += [(c, "copy:" + w, d) for c, w, d in crv]
-        viol += [(c, "copy:" + w, d) for c, w, d in compare_raw(expected_view(m["copies"][0]["holes"]), crview)]
+        cviol += [(c, "copy:" + w, d) for c, w, d in crv]
+        if not crv:
+            cviol += [(c, "copy:" + w, d) for c, w, d in compare_raw(copy_exp, crview)]
 
     # 3. before / after differential
-    if ops and before is not None and ex.results and ex.results[-1] == "ok":
-        last = ops[-1]
-        narrow = _narrow(last, target_uid, ids_before, ids_after, rview, before, ex)
-        viol += isolation_check(last, before[0], b1, ex.dg_uid, target_uid, ids_before, ids_after, narrow)
+    accepted = bool(ex.results) and ex.results[-1] == "ok"
+    if ops and node0 is not None and accepted:
+        narrow = _narrow(last, target_uid, node0)
+        viol += isolation_check(last, node0, node, target_uid, ids_before, ids_after, narrow)
+        if ex.copy_uid is not None and last[0] != "copy":
+            cnode0 = raw_group(before[0] if ex.copy_where == "same" else before[1], ex.copy_uid)
+            if node_digests(cnode0) != node_digests(cnode):
+                cviol.append(("others-untouched", "copy:file-changed", {"op": last}))
 
     # 4. fresh read-only re-opening
     try:
@@ -1178,40 +1255,51 @@ def observe_and_judge(ex, history, alpha, before, target_uid, pre_model, caches)
         rop, v = api_view(rdg, "reopen")
         viol += v
         viol += compare_view(exp, rop, "reopen", removed_names)
-        tv, _ = table_check(rdg, holes_model, "reopen")
-        viol += tv
-        if ex.copy_uid is not None:
-            cro = ro if ex.copy_where == "same" else ex.Workspace(io.BytesIO(b2), mode="r")
-            cdg = cro.get_entity(ex.copy_uid)[0]
-            cv, v = api_view(cdg, "copy-reopen")
-            viol += v
-            viol += compare_view(expected_view(m["copies"][0]["holes"]), cv, "copy-reopen")
-            if cro is not ro:
-                cro.close()
+        if not _view_broken(viol, "reopen"):
+            tv, _ = table_check(rdg, holes_model, "reopen")
+            viol += tv
         ro.close()
     except Exception as err:  # pylint: disable=broad-except
-        viol.append(("hole-reads-back", "reopen:open-raises", {"error": repr(err)[:300], "trace": traceback.format_exc()[-600:]}))
-    return _result(ex, history, alpha, viol, node, caches, rview, tstats)
+        viol.append(("hole-reads-back", f"reopen:open-raises:{type(err).__name__}", {"error": repr(err)[:300], "trace": traceback.format_exc()[-600:]}))
+    if ex.copy_uid is not None:
+        try:
+            cro = ex.Workspace(io.BytesIO(b1 if ex.copy_where == "same" else b2), mode="r")
+            cdg = cro.get_entity(ex.copy_uid)[0]
+            cv, v = api_view(cdg, "copy-reopen")
+            cviol += v
+            cviol += compare_view(copy_exp, cv, "copy-reopen")
+            cro.close()
+        except Exception as err:  # pylint: disable=broad-except
+            cviol.append(("hole-reads-back", f"copy-reopen:open-raises:{type(err).__name__}", {"error": repr(err)[:300]}))
+
+    # the copy: judged in detail when it is made; afterwards any departure from the state it
+    # was made in is ONE symptom - an operation on the source reached the copy
+    dead = False
+    if cviol:
+        if last[0] == "copy":
+            viol += cviol
+            dead = True
+        else:
+            viol.append(("others-untouched", f"copy-in-{'same' if ex.copy_where == 'same' else 'other'}-workspace:no-longer-equals-the-source-it-was-copied-from",
+                         {"op": last, "symptoms": sorted({f"{c}|{w}" for c, w, _ in cviol})[:12], "first": cviol[0][2]}))
+    if last[0] == "rename_data" and viol:
+        dead = True  # known defect D1 leaves label and name apart: nothing meaningful follows
+    return _result(ex, history, alpha, viol, node, caches, rview, tstats, dead)
 
 
-def _narrow(op, target_uid, ids_before, ids_after, rview, before, ex):
+def _narrow(op, target_uid, node0):
     """uids inside the target hole that the operation is allowed to touch (None = all)."""
     if target_uid is None:
         return None
     tu = rawh5.norm_uid(str(target_uid))
     k = op[0]
-    if k not in ("update", "rename_hole", "resurvey"):
-        return None
     if k in ("rename_hole", "resurvey"):
         return {tu}
-    # update: only the data set named op[2]
+    if k != "update":
+        return None
     allowed = set()
-    for view_src in (rview,):
-        if view_src is None:
-            continue
     try:
-        node = raw_group(before[0], ex.dg_uid)
-        for r in node["concat"]["attributes"] or []:
+        for r in node0["concat"]["attributes"] or []:
             if rawh5.norm_uid(r.get("ID", "")) == tu:
                 v = r.get(f"Property:{op[2]}")
                 if v:
@@ -1253,7 +1341,7 @@ def _model_shape(m):
     }
 
 
-def _result(ex, history, alpha, viol, node, caches, rview, tstats):
+def _result(ex, history, alpha, viol, node, caches, rview, tstats, dead=False):
     m = ex.model
     lay = _symbolic(ex, node, rview)
     last = history["ops"][-1][0] if history["ops"] else "-"
@@ -1270,7 +1358,7 @@ def _result(ex, history, alpha, viol, node, caches, rview, tstats):
         "key": core.digest([_model_shape(m), lay, caches, ex.cfg["version"], refused]),
         "model_key": core.digest(_model_shape(m)),
         "viol": vl,
-        "succ": enabled(m, alpha) if not refused else [],
+        "succ": enabled(m, alpha) if not (refused or dead) else [],
         "outcome": core.digest([last, ex.results[-1] if ex.results else "-", sorted((c, w) for c, w, _ in vl), sorted(tstats.items()),
                                  {h: sorted(hole["data"]) for h, hole in m["holes"].items()}]),
         "refused": refused,
